@@ -26,7 +26,7 @@ META = dict(
     ],
     bounds=dict(
         quick="positive (n,h) in {(1,1),(2,2),(2,1),(3,2)} all basis states; complex n=1 (h<=2) all 3 strings x 2 outcomes, n=2 h=2 strings XY,YZ,YY,ZZ x 4 outcomes; "
-        "mixed (1,1,1) all 3 strings x 2 outcomes; batches of 4-5 rows with repeated / all-Z / mixed bases in two orders and a split",
+        "mixed (1,1,1) all 3 strings x 2 outcomes; batches of 4-5 rows with repeated / all-Z / mixed bases in two orders and a split; one 10-row batch holding all 9 two-site basis strings (complex (2,1))",
         thorough="complex n=2 (h in {1,2,3}) all 9 strings x 4 outcomes; complex n=3 h=2 on 5 strings; mixed (1,1,1),(1,2,2),(1,1,2),(1,2,1) all strings, mixed (2,1,1) on strings XY, YZ, ZZ, YY",
     ),
     outside=["3^n strings for n>=3 (complex) / n>=2 exhaustively (mixed): polynomial size", "floating point", "regulariser: the oracle quotes the library's literal 1e-8 exactly"],
